@@ -233,6 +233,11 @@ func H05s_stalled_cut() {
 	pub.peerSend(specEncode(&specPkt{Typ: specPINGREQ}))
 	vrtQuiesce()
 	vrtAssert("C05.harness_publisher_held_up", len(pub.peerTake()) == 0) // (the PINGREQ is queued behind the blocked delivery)
+	if vrtBool("offender_pings_first") {
+		// the stalled client still sends: its own processor now waits for the write mutex the blocked publisher holds
+		o.peerSend(specEncode(&specPkt{Typ: specPINGREQ}))
+		vrtQuiesce()
+	}
 	switch vrtChoice("cut", 3) {
 	case 0:
 		o.peerClose()
